@@ -581,6 +581,11 @@ func (p *Prog) extCallRoots(f *ssa.Function, c *ssa.Call, args []ssa.Value, rec 
 	}
 	// results that are (or may alias) an argument
 	out := []Root{{Kind: RFresh, Name: "result of " + name, Typ: c.Type()}}
+	if name == "(*sync.Pool).Get" {
+		// pooled objects are exclusively owned between Get and Put; their discipline (reset, no aliasing after Put)
+		// is decided by the pool rule
+		return []Root{{Kind: RFresh, Name: "pooled object", Typ: c.Type()}}
+	}
 	if freshResult[name] {
 		return out
 	}
@@ -732,6 +737,8 @@ var extWrites = map[string][]int{
 	"(*bytes.Buffer).Truncate":      {0},
 	"(*bytes.Buffer).ReadFrom":      {0},
 	"(*strings.Builder).WriteString": {0},
+	"(*sync.Map).Store": {0}, "(*sync.Map).LoadOrStore": {0}, "(*sync.Map).Delete": {0}, "(*sync.Map).LoadAndDelete": {0},
+	"(*sync.Map).Swap": {0}, "(*sync.Map).CompareAndSwap": {0}, "(*sync.Map).CompareAndDelete": {0},
 	"(*sync.Mutex).Lock":            nil, "(*sync.Mutex).Unlock": nil, "(*sync.RWMutex).Lock": nil, "(*sync.RWMutex).Unlock": nil,
 	"(*sync.RWMutex).RLock": nil, "(*sync.RWMutex).RUnlock": nil,
 }
@@ -845,6 +852,10 @@ func (p *Prog) directEffects(f *ssa.Function) []Effect {
 							e := Effect{Fn: f, Instr: in, Kind: "extwrite", Roots: p.Roots(args[i])}
 							if ow := ownerOfLoadedFrom(stripConv(args[i])); ow != nil {
 								e.Target = *ow
+							} else if g, isG := args[i].(*ssa.Global); isG {
+								e.Target = Owner{Type: "<global>", Field: g.Name()}
+							} else if fa, isFA := args[i].(*ssa.FieldAddr); isFA && structOf(fa.X.Type()) != nil {
+								e.Target = Owner{Type: structOf(fa.X.Type()).Obj().Name(), Field: fieldName(fa.X.Type(), fa.Field)}
 							} else {
 								e.Target = lastOwner(e.Roots)
 							}
